@@ -8,6 +8,7 @@ import (
 	"net"
 	"net/http"
 	"net/http/httptest"
+	"runtime"
 	"strconv"
 	"strings"
 	"sync"
@@ -635,6 +636,71 @@ collect:
 	o.Reads = [][]Read{reads}
 }
 
+// ---------------------------------------------------------------- hub -> slow local websocket client
+
+func runWsOut(s *Stream) {
+	o := &Observed{}
+	s.Obs = o
+	h := newHost()
+	feed := "feed-" + s.Name
+	d := websocket.Dialer{ReadBufferSize: 4096}
+	c, _, err := d.Dial("ws://"+h.base+"/ws/"+feed, nil)
+	if err != nil {
+		o.Err = "dial: " + err.Error()
+		return
+	}
+	defer c.Close()
+	if tc, ok := c.UnderlyingConn().(*net.TCPConn); ok && s.Rcvbuf > 0 {
+		_ = tc.SetReadBuffer(s.Rcvbuf)
+	}
+	var mu sync.Mutex
+	var frames [][]byte
+	last := time.Now()
+	go func() {
+		n := 0
+		for {
+			_, data, err := c.ReadMessage()
+			if err != nil {
+				return
+			}
+			mu.Lock()
+			frames = append(frames, data)
+			last = time.Now()
+			mu.Unlock()
+			n++
+			if s.ReadBurst > 0 && n%s.ReadBurst == 0 {
+				time.Sleep(time.Duration(s.ReadPauseUs) * time.Microsecond)
+			}
+		}
+	}()
+	time.Sleep(5 * time.Millisecond)
+	h.barrier()
+	input := s.wsoutInput()
+	inj := &hub.Client{Hub: h.app.Hub.Hub, Name: "verif-inj", Topic: feed}
+	for k := 0; k < s.Count; k++ {
+		h.app.Hub.Broadcast <- hub.Message{Sender: *inj, Data: input[k*s.Blk : (k+1)*s.Blk], Type: websocket.BinaryMessage, Sent: time.Now()}
+		if k%16 == 15 {
+			time.Sleep(300 * time.Microsecond) // a burst of 16, a breath: the stream lasts some tens of ms
+		}
+	}
+	o.Posted = s.total()
+	// the client keeps reading what is buffered on the way; done when nothing new arrived for a while
+	start := time.Now()
+	for time.Since(start) < 1500*time.Millisecond {
+		mu.Lock()
+		quiet := time.Since(last) > 150*time.Millisecond
+		mu.Unlock()
+		if quiet {
+			break
+		}
+		time.Sleep(10 * time.Millisecond)
+	}
+	mu.Lock()
+	o.Frames = frames
+	mu.Unlock()
+	runtime.KeepAlive(c)
+}
+
 func runStream(s *Stream) {
 	defer func() {
 		if r := recover(); r != nil && s.Obs != nil {
@@ -648,5 +714,7 @@ func runStream(s *Stream) {
 		runTCP(s)
 	case "rev":
 		runReverse(s)
+	case "wsout":
+		runWsOut(s)
 	}
 }
